@@ -749,12 +749,29 @@ func applyActionLookups(c *core.Ctx, rule string) {
 			good, got := false, "?"
 			if len(vals) == 2 && core.Unwrap(vals[0]) == ssa.Value(core.Param(fn, 0)) {
 				id := core.Unwrap(vals[1])
+				// conversions on the way to the 64-bit OID component may widen, never narrow below the id's own width
+				minBits := 64
 				for {
 					if cv, ok := id.(*ssa.Convert); ok {
+						if bt, isB := cv.Type().Underlying().(*types.Basic); isB {
+							if w := intBits(bt); w > 0 && w < minBits {
+								minBits = w
+							}
+						}
 						id = core.Unwrap(cv.X)
 						continue
 					}
 					break
+				}
+				narrowed := false
+				if bt, isB := id.Type().Underlying().(*types.Basic); isB {
+					if w := intBits(bt); w > 0 && minBits < w {
+						narrowed = true
+					}
+				}
+				if narrowed {
+					got = fmt.Sprintf("an id narrowed to %d bits on the way", minBits)
+					id = nil
 				}
 				switch y := id.(type) {
 				case *ssa.Parameter:
@@ -891,4 +908,19 @@ func popVerdict(c *core.Ctx, rule string) {
 		pos = badPos
 	}
 	c.Check(rule, "pop-empty-false", pos, bad == "", "Pop answers false when the queue is empty: the driver's drain loops on the event loop end there"+map[bool]string{true: "", false: " — " + bad}[bad == ""])
+}
+
+// intBits: the width of a sized integer type (0 for anything else; int/uint count as 64).
+func intBits(b *types.Basic) int {
+	switch b.Kind() {
+	case types.Int8, types.Uint8:
+		return 8
+	case types.Int16, types.Uint16:
+		return 16
+	case types.Int32, types.Uint32:
+		return 32
+	case types.Int64, types.Uint64, types.Int, types.Uint, types.Uintptr:
+		return 64
+	}
+	return 0
 }
